@@ -120,6 +120,7 @@ func verifyFunc(p *Prog, key string) *FuncResult {
 			if i < len(c.ResultNames) && c.ResultNames[i] != "" {
 				names[c.ResultNames[i]] = v
 			}
+			e.outputs = append(e.outputs, v)
 		}
 		_ = names
 		// one obligation per ensures clause: the conjunction over all return paths, each evaluated in its own state
@@ -161,6 +162,9 @@ func verifyFunc(p *Prog, key string) *FuncResult {
 			o := e.addObl(rst, "cover", fmt.Sprintf("return%d", ri), "false", r.pos)
 			o.Kind = "cover"
 		}
+	}
+	for _, o := range e.vc.obls {
+		o.inVals, o.outVals, o.prog = args, e.outputs, p
 	}
 	res.Obls = e.vc.obls
 	res.OutOfSubset = e.oos
